@@ -377,6 +377,11 @@ type GetETag struct {
 type ETag string
 
 func (etag *ETag) UnmarshalText(b []byte) error {
+	// strconv.Unquote also accepts single-quoted and back-quoted Go
+	// literals, an entity tag is always a double-quoted string
+	if len(b) < 2 || b[0] != '"' || b[len(b)-1] != '"' {
+		return fmt.Errorf("webdav: failed to unquote ETag: expected a quoted string, got %q", b)
+	}
 	s, err := strconv.Unquote(string(b))
 	if err != nil {
 		return fmt.Errorf("webdav: failed to unquote ETag: %v", err)
